@@ -84,6 +84,8 @@ for _replay in ("absent", "given", "empty"):
                 name=f"TestNode.should_rerun[{_case}]",
                 case=_case,
                 tier="quick" if _main else "thorough",
+                # replay with an explicitly empty rerun_status: the empty-list reasoning needs long solver runs
+                timeout=40000 if (_replay, _rerun) == ("given", "empty") else 10000,
                 params={"self": Ref("TestNode"), "worker": (Ref("TestWorker"), "nullable")},
                 requires=WF_NODE + [WF_OBJECTS, WF_RESULTS] + VALID_PARAMS + _present("replay")[_replay]
                 + _present("rerun_status")[_rerun] + _present("stop_status")[_stop],
